@@ -8,12 +8,9 @@ open Ibex.Eval (buildCalls)
 
 /-- exact value and Jacobian (rows = output components in row-major order) at a rational point -/
 def dualEval (funs : List Dag) (main : Dag) (p : List Rat) : Option (Mat Dual) :=
-  let n := p.length
-  let env := p.zipIdx.map fun (q : Rat × Nat) => (⟨q.1, (List.range n).map fun j => if j == q.2 then 1 else 0⟩ : Dual)
-  Eval.root (Alg.dual n) env (buildCalls (Alg.dual n) funs) main
+  Deriv.dualEval funs main p      -- IbexModel/Deriv.lean; correctness: IbexProofs/DualCorrect.lean
 
-def rowsIn (g : List (List Rat)) (z : Mat Itv) : Bool :=
-  g.length == z.r && g.all (·.length == z.c) && (List.zip g.flatten z.d).all fun q => ratIn q.1 q.2
+def rowsIn (g : List (List Rat)) (z : Mat Itv) : Bool := Deriv.rowsIn g z
 
 /-- exact set-valued evaluation at a rational point (thick constants allowed) -/
 def setEval (funs : List Dag) (main : Dag) (p : List Rat) : Option (Mat Itv) :=
@@ -24,9 +21,7 @@ def ratsIn (vs : List Rat) (z : Mat Itv) : Bool :=
   vs.length == z.d.length && (List.zip vs z.d).all fun q => ratIn q.1 q.2
 
 /-- exact interval product-sum  Σ_j H[i][j]·(x_j − x0_j)  with rational bounds -/
-def hansenRow (h : List Itv) (dx : List Rat) : Itv :=
-  (List.zip h dx).foldl (fun acc (q : Itv × Rat) =>
-    Itv.addG Rnd.exact acc (Itv.mulG Rnd.exact q.1 (Itv.point q.2))) (Itv.point 0)
+def hansenRow (h : List Itv) (dx : List Rat) : Itv := Deriv.hansenRow h dx
 
 def opsSym (op : String) (ins outs : List String) : Option String :=
   match op, ins, outs with
@@ -58,7 +53,7 @@ def opsSym (op : String) (ins outs : List String) : Option String :=
       if z == "E" then pure "FAIL empty-derivative-but-differentiable-at-point" else do
       let z ← parseMatItv z
       let col ← v.d.mapM fun d => d.g[vv]?
-      pure (if col.length == z.d.length && (List.zip col z.d).all (fun q => ratIn q.1 q.2) then "ok column-enclosed"
+      pure (if Deriv.colIn col z then "ok column-enclosed"
             else "FAIL derivative-outside-enclosure")
   | "hansenpt", [dag, x0, x], [h] => do
     let (funs, main) ← parseProgram dag
@@ -68,10 +63,7 @@ def opsSym (op : String) (ins outs : List String) : Option String :=
       if h == "E" then pure "FAIL empty-hansen-matrix" else do
       let H ← parseMatItv h
       let dx := List.zipWith (· - ·) p p0
-      let ok := (List.range H.r).all fun i =>
-        match v.d[i]?, v0.d[i]? with
-        | some a, some b => ratIn (a - b) (hansenRow (H.row i) dx)
-        | _, _ => false
+      let ok := Deriv.hansenOk H v v0 dx
       pure (if ok then (if dx.all (· == 0) then "ok same-point" else "ok slope-enclosed") else "FAIL f(x)-f(x0)-outside-H(x-x0)")
     | _, _ => pure "ok undefined-or-unsupported"
   | "diffpt", [dag, ddag, pt], _ => do
@@ -83,7 +75,7 @@ def opsSym (op : String) (ins outs : List String) : Option String :=
     | some v =>
       let exact := (v.d.map (·.g)).flatten
       match Eval.root Alg.rat p (buildCalls Alg.rat dfuns) dmain with
-      | some dv => pure (if exact == dv.d then "ok derivative-equal" else s!"FAIL derivative-differs exact={exact} got={dv.d}")
+      | some dv => pure (if Deriv.diffEq v dv then "ok derivative-equal" else s!"FAIL derivative-differs exact={exact} got={dv.d}")
       | none =>
         -- thick constants (constant folding): the set value must contain the exact derivative
         match setEval dfuns dmain p with
